@@ -59,10 +59,35 @@ func (p *Program) flattenHolders() {
 				break
 			}
 		}
+		tentative := false
 		if !carries {
-			continue
+			// no canonical names in it — but its fields may still play canonical roles under other names ("startedAt" for
+			// the block-start instant): flatten tentatively, let the role derivation look, keep it only if a role was found
+			simple := sub.NumFields() > 0 && sub.NumFields() <= 8
+			for j := 0; j < sub.NumFields(); j++ {
+				switch sub.Field(j).Type().Underlying().(type) {
+				case *types.Basic:
+				case *types.Struct:
+					if !isTimeTime(sub.Field(j).Type()) {
+						simple = false
+					}
+				default:
+					simple = false
+				}
+				if fieldByName(ctx, sub.Field(j).Name()) != nil {
+					simple = false
+				}
+			}
+			if !simple {
+				continue
+			}
+			tentative = true
 		}
 		loc := "ctx." + f.Name()
+		if tentative {
+			p.tentativeHolders = append(p.tentativeHolders, loc)
+			p.tentativeType = append(p.tentativeType, tn)
+		}
 		p.HolderType[tn] = loc
 		for j := 0; j < sub.NumFields(); j++ {
 			sf := sub.Field(j).Origin()
@@ -103,4 +128,31 @@ func (p *Program) ctxFields() []*types.Var {
 		out = append(out, f)
 	}
 	return out
+}
+
+// settleHolders: after the role derivation, a tentatively flattened struct stays transparent only if one of its fields
+// was given a canonical role; otherwise it is an ordinary struct-valued field again. Returns whether anything was undone
+// (the roles then have to be derived afresh).
+func (p *Program) settleHolders() bool {
+	undone := false
+	for i, loc := range p.tentativeHolders {
+		keep := false
+		for _, sf := range p.HolderSubs[loc] {
+			if _, ok := p.FieldAlias[sf]; ok {
+				keep = true
+			}
+		}
+		if keep {
+			continue
+		}
+		for _, sf := range p.HolderSubs[loc] {
+			delete(p.HolderOf, sf)
+			p.FieldOwner[sf] = p.tentativeType[i]
+		}
+		delete(p.HolderSubs, loc)
+		delete(p.HolderType, p.tentativeType[i])
+		undone = true
+	}
+	p.tentativeHolders, p.tentativeType = nil, nil
+	return undone
 }
